@@ -292,6 +292,51 @@ def goRunCase (arch name : String) (kv : List String) : String :=
     let sd' := if target == "sd" then g.acc else BitVec.ofNat 64 (hx "sd")
     s!"d={if dw == 0 then "-" else ",".intercalate ds} vcc={Util.toHex vcc'.toNat} sd={Util.toHex sd'.toNat}"
 
+/-! ## `c06 mbody`: one iteration of a translated DS / FLAT body against the real ALU (one active lane).
+The memory the loads see is given as a window `wb` (base address) / `win` (bytes); outside it: 0. -/
+
+def mbodyCase (arch name : String) (kv : List String) : String :=
+  match Gen.Lane.memHandlers.find? (fun h => h.arch == arch && h.name == name) with
+  | none => "untranslated"
+  | some h =>
+    let hx := fun k => (Util.kvHex? kv k).getD 0
+    let bytes := fun k => (((Util.kv? kv k).bind Util.hexBytes?).getD []).map (BitVec.ofNat 8)
+    let u : MemUni :=
+      { offset0 := BitVec.ofNat 32 (hx "off0"), offset1 := BitVec.ofNat 32 (hx "off1"), hasSAddr := hx "hs" != 0
+        scalarBase := BitVec.ofNat 64 (hx "sb"), ldsLen := BitVec.ofNat 64 (hx "ldslen") }
+    let base := hx "wb"
+    let win := (bytes "win").toArray
+    let mem : Nat → BitVec 8 := fun k => if base ≤ k ∧ k < base + win.size then win.getD (k - base) 0#8 else 0#8
+    -- the staging array starts poisoned: the body must not let it through (`memory_bodies_uniform`)
+    let r : MemRawIn :=
+      { i := (Util.kvNat? kv "i").getD 0, addr := BitVec.ofNat 64 (hx "a"), data := bytes "da", data1 := bytes "d1"
+        mem := mem, stage := List.replicate h.stageLen 0xaa#8 }
+    let o := h.raw u r
+    if o.fault then "fault" else
+    let d0 := bytes "d0"
+    let d := match o.dst with
+      | some bs => bs ++ d0.drop bs.length
+      | none => d0
+    let hexOf := fun (bs : List (BitVec 8)) => Util.bytesHex (bs.map (·.toNat))
+    let loads := if h.isLds then "-" else ",".intercalate (o.loads.map fun l => s!"{Util.toHex l.1}:{l.2}")
+    -- effect of the stores: LDS — the window afterwards (+ how many stores fell outside it); memory — the
+    -- bytes written, by address (a later store to the same address wins)
+    let eff :=
+      if h.isLds then
+        let after := (List.range win.size).map fun k =>
+          match (o.stores.reverse.find? fun st => st.1 == base + k) with
+          | some st => st.2
+          | none => win.getD k 0#8
+        let outside := (o.stores.filter fun st => !(base ≤ st.1 ∧ st.1 < base + win.size)).length
+        s!"{hexOf after}/{outside}"
+      else
+        let addrs := (o.stores.map (·.1)).eraseDups.toArray.qsort (· < ·)
+        ",".intercalate (addrs.toList.map fun a =>
+          match (o.stores.reverse.find? fun st => st.1 == a) with
+          | some st => s!"{Util.toHex a}:{Util.toHexPad 2 st.2.toNat}"
+          | none => "")
+    s!"d={hexOf d} loads={loads} mem={eff}"
+
 def sortStrings (l : List String) : List String := (l.toArray.qsort (· < ·)).toList
 
 def handle (line : String) : String :=
@@ -324,6 +369,7 @@ def handle (line : String) : String :=
     s!"n={names.length} {",".intercalate names}"
   | _ :: "body" :: arch :: name :: rest => bodyCase arch name rest
   | _ :: "gorun" :: arch :: name :: rest => goRunCase arch name rest
+  | _ :: "mbody" :: arch :: name :: rest => mbodyCase arch name rest
   | _ :: "misfits" :: _ => s!"{misfits}"
   | _ => "bad-op"
 
